@@ -25,7 +25,8 @@ REGISTRY = []
 class Loop(object):
     def __init__(self, vars=None, inv=None, variant=None, heap=None, ghost=None, elem=None,
                  done_name="done", note=None, hint=None, tail=None, min_decrease=1, open_dicts=(),
-                 any_order=False, writes=None, temps=()):
+                 any_order=False, writes=None, temps=(), entry=None):
+        self.entry = entry              # spec function run when the loop is reached (ghost snapshots)
         self.any_order = any_order      # for over a concrete dict: each key once, in an arbitrary order
         self.writes = writes            # {key: [locals that iteration may bind]} (pairwise disjoint)
         self.temps = tuple(temps)
